@@ -345,8 +345,8 @@ func (f *File) seekWithoutLocking(offset int64, whence int) (int64, error) {
 					return
 				}
 
-				// TODO: Handle error
-				panic(err)
+				// Hand the error to whoever reads from the pipe
+				_ = writer.CloseWithError(err)
 			}
 		}()
 
@@ -534,8 +534,8 @@ func (f *File) Read(p []byte) (n int, err error) {
 					return
 				}
 
-				// TODO: Handle error
-				panic(err)
+				// Hand the error to whoever reads from the pipe
+				_ = writer.CloseWithError(err)
 			}
 		}()
 
